@@ -83,6 +83,10 @@ func RunC07(tier string) int {
 	}
 	defer st.Cleanup()
 	e1.CrashPart(run, st, tierN(tier, 8, 40), tierN(tier, 6, 0), tierN(tier, 2, 10))
+	// (1b) entries lost at rest (what a crash or a failed write leaves behind, or an eviction):
+	// every blob / tree / result entry in turn, singly and in pairs; the next build must exit 0
+	// with reference bytes
+	e1.LostEntryPart(run, st, tierN(tier, 12, 60), tierN(tier, 12, 0), map[string]bool{"bytes": true, "restore": true, "exit": true, "crash": true, "hang": true})
 
 	// (2) storage faults
 	err = StoreSweep(run, "TestFaults", tierN(tier, 160, 1500), false, func(o Outcome) {
